@@ -13,6 +13,7 @@ from magpylib._src.defaults.defaults_utility import SUPPORTED_PLOTTING_BACKENDS
 from magpylib._src.defaults.defaults_utility import MagicProperties
 from magpylib._src.defaults.defaults_utility import color_validator
 from magpylib._src.defaults.defaults_utility import get_defaults_dict
+from magpylib._src.defaults.defaults_utility import linearize_dict
 from magpylib._src.defaults.defaults_utility import validate_property_class
 from magpylib._src.defaults.defaults_utility import validate_style_keys
 
@@ -730,6 +731,15 @@ class Magnetization(MagicProperties):
     def size(self, val):
         if val is not None:
             self.arrow.size = val
+
+    def as_dict(self, flatten=False, separator="."):
+        # `size` is an alias of `arrow.size`: leaving it out keeps `update()` and
+        # `defaults.reset()` from re-assigning the old arrow size after the new one
+        dict_ = super().as_dict()
+        dict_.pop("size", None)
+        if flatten:
+            dict_ = linearize_dict(dict_, separator=separator)
+        return dict_
 
     @property
     def color(self):
